@@ -2,6 +2,7 @@
 //! fields, runs the REAL cgt-tool entry points and states the property as obligations over the outputs.
 
 pub mod common;
+pub mod convert;
 pub mod fx;
 pub mod matching;
 pub mod relational;
@@ -20,6 +21,8 @@ pub fn run(prop: &str, sk: &Skeleton) -> Leaf {
         "C07" => report::c07(sk),
         "C08" => fx::c08(sk),
         "C14" => text::c14(sk),
+        "C18" => convert::c18(sk),
+        "C19" => convert::c19(sk),
         "C15" => text::c15(sk),
         "C17" => text::c17(sk),
         "C06" => relational::c06(sk),
